@@ -59,14 +59,47 @@ Qed.
 Lemma assign_complete_refuted :
   exists st st', reachable st /\ unpositioned (s_tree st) (s_store st)
                  /\ widths_fit (s_len st) (s_tree st) (s_store st)
-                 /\ assign_fields st = (st', Some E_VALUE).
+                 /\ assign_fields st = (st', Some E_VALUE)
+                 /\ exclusive_children (s_tree st) = false.
 Proof.
-  exists k1_state, (fst (assign_fields k1_state)). split; [|split; [|split]].
+  exists k1_state, (fst (assign_fields k1_state)). split; [|split; [|split; [|split; [|vm_compute; reflexivity]]]].
   - apply exec_reachable. apply reach_init.
   - intros i f Hin. rewrite k1_tree in Hin. rewrite k1_store. vm_compute in Hin.
     repeat (destruct Hin as [Hin|Hin]; [inversion Hin; subst; reflexivity|]). destruct Hin.
   - apply k1_widths_fit.
   - vm_compute. reflexivity.
+Qed.
+
+(* the same clause when the layout is extended after an earlier assign_fields: length 4; a (1 bit);
+   x (1 bit) under a=0; assign_fields [x@0, a@1]; y (3 bits) under a=1; assign_fields fails although
+   the children are exclusive and a + y = 4 *)
+Definition incr_ops : list op :=
+  [OpAdd 0 0 (Some 1) None []; OpCall 0 [(0, 0)]; OpAdd 1 1 (Some 1) None []; OpAssign 0;
+   OpCall 0 [(0, 1)]; OpAdd 2 2 (Some 3) None []].
+
+Lemma assign_complete_incremental_refuted :
+  exists st st', reachable st /\ exclusive_children (s_tree st) = true
+                 /\ widths_fit (s_len st) (s_tree st) (s_store st)
+                 /\ assign_fields st = (st', Some E_VALUE)
+                 /\ ~ unpositioned (s_tree st) (s_store st).
+Proof.
+  exists (exec (init 4) incr_ops), (fst (assign_fields (exec (init 4) incr_ops))).
+  split; [apply exec_reachable, reach_init|]. split; [vm_compute; reflexivity|].
+  split; [|split; [vm_compute; reflexivity|]].
+  - intros fv.
+    assert (Et : s_tree (exec (init 4) incr_ops) =
+                 Node [(0, 0%nat)] [([(0, 0)], Node [(1, 1%nat)] []); ([(0, 1)], Node [(2, 2%nat)] [])])
+      by (vm_compute; reflexivity).
+    assert (Es : s_store (exec (init 4) incr_ops) =
+                 [mkField (Some 1) (Some 1) [] 1; mkField (Some 1) (Some 0) [] 1; mkField (Some 3) None [] 1])
+      by (vm_compute; reflexivity).
+    rewrite Et, Es. cbn [enabled_fields flat_map app]. unfold req_enabled. cbn [forallb fst snd].
+    destruct (zassoc 0 fv) as [a|]; [|vm_compute; discriminate].
+    destruct (Z.eqb_spec 0 a) as [<-|N0].
+    { change (1 =? 0) with false. vm_compute. discriminate. }
+    destruct (Z.eqb_spec 1 a) as [<-|N1]; vm_compute; discriminate.
+  - intros HU. specialize (HU 0 0%nat). vm_compute in HU. assert (H : Some 1 = None) by (apply HU; now left).
+    discriminate.
 Qed.
 
 (* one more bit and the same hierarchy is laid out *)
